@@ -351,6 +351,469 @@ example : ∀ n ∈ [0, -9223372036854775808, 9223372036854775807, 9999999999999
   unfold int64; decide
 
 
+
+/-! ### parse_int -/
+
+def g (dp : Nat × Int) : Int := (dp.1 : Int) * 10 ^ dp.2.toNat
+
+/-- per-row weighted digit sum, as the code computes it once the power table is known -/
+def rowSum (ds : List Nat) : Int := ((ds.zip (countdown ds.length)).map g).sum
+
+theorem sums_rows (drows : List (List Nat)) :
+    (unflatten (drows.map List.length)
+      ((drows.flatten.zip ((drows.map List.length).map countdown).flatten).map g)).map List.sum
+      = drows.map rowSum := by
+  induction drows with
+  | nil => simp [unflatten]
+  | cons ds rest ih =>
+    simp only [List.map_cons, List.flatten_cons, unflatten]
+    rw [List.zip_append (by simp [length_countdown]), List.map_append]
+    have hl : ((ds.zip (countdown ds.length)).map g).length = ds.length := by simp [length_countdown]
+    rw [List.take_left' hl, List.drop_left' hl]
+    simp only [ih]
+    rfl
+
+theorem foldl_horner (ds : List Nat) (acc : Nat) :
+    ds.foldl (fun a d => a * 10 + d) acc = acc * 10 ^ ds.length + ofDigits ds := by
+  unfold ofDigits
+  induction ds generalizing acc with
+  | nil => simp
+  | cons d r ih =>
+    simp only [List.foldl_cons, List.length_cons]
+    rw [ih (acc * 10 + d), ih (0 * 10 + d)]
+    simp only [Nat.zero_mul, Nat.zero_add, Nat.pow_succ]
+    rw [Nat.add_mul, Nat.mul_assoc, Nat.mul_comm 10 (10 ^ r.length)]
+    omega
+
+theorem rowSum_cons (d : Nat) (r : List Nat) : rowSum (d :: r) = (d : Int) * 10 ^ r.length + rowSum r := by
+  simp [rowSum, countdown, g]
+
+theorem rowSum_eq (ds : List Nat) : rowSum ds = (ofDigits ds : Int) := by
+  induction ds with
+  | nil => rfl
+  | cons d r ih =>
+    rw [rowSum_cons, ih]
+    have := foldl_horner r d
+    unfold ofDigits at this ⊢
+    simp only [List.foldl_cons, Nat.zero_mul, Nat.zero_add]
+    rw [this]
+    push_cast
+    rfl
+
+theorem omap_getD {α β} (f : α → Option β) (l : List α) (r : List β) (d : β) (h : omap f l = some r) :
+    r = l.map (fun a => (f a).getD d) := by
+  induction l generalizing r with
+  | nil => simp at h; subst h; rfl
+  | cons x xs ih =>
+    obtain ⟨b, bs, hb, hbs, rfl⟩ := omap_cons_eq_some f x xs r h
+    simp [hb, ← ih bs hbs]
+
+theorem omap_digitVal (t : Bytes) (h : allDigits t = true) : omap digitVal t = some (t.map (· - 48)) := by
+  apply omap_some_map
+  intro b hb
+  unfold allDigits at h
+  have := (List.all_eq_true.mp h) b hb
+  simp only [Bool.and_eq_true, decide_eq_true_eq] at this
+  simp [digitVal, this]
+
+theorem length_stripSign (r : Bytes) : (stripSign r).length = r.length := by
+  unfold stripSign; split <;> simp
+
+/-- digits of one row after sign stripping (`[]` when rejected) -/
+def rowDigits (r : Bytes) : List Nat := (omap digitVal (stripSign r)).getD []
+
+/-- the code's per-row result -/
+def rowValue (r : Bytes) : Int := wrap64 (rowSum (rowDigits r) * (if isNegRow r then -1 else 1))
+
+theorem map_zip_self {α β γ} (l : List α) (g : α → β) (f : β × α → γ) :
+    ((l.map g).zip l).map f = l.map (fun a => f (g a, a)) := by
+  induction l with
+  | nil => rfl
+  | cons a as ih => simp [ih]
+
+theorem strToInt_rows (rows : List Bytes) (hne : ∀ r ∈ rows, r ≠ [])
+    (hok : ∀ r ∈ rows, (omap digitVal (stripSign r)).isSome) :
+    strToInt rows = some (rows.map rowValue) := by
+  unfold strToInt
+  have hsome : (omap (fun r => omap digitVal (stripSign r)) rows).isSome := by
+    rw [omap_isSome_iff]; exact hok
+  obtain ⟨drows, hd⟩ := Option.isSome_iff_exists.mp hsome
+  rw [hd]
+  simp only
+  have hdr : drows = rows.map rowDigits := omap_getD _ rows drows [] hd
+  have hlen : rows.map List.length = drows.map List.length := by
+    rw [hdr, List.map_map]
+    apply List.map_congr_left
+    intro r hr
+    obtain ⟨ds, hds⟩ := Option.isSome_iff_exists.mp (hok r hr)
+    simp only [Function.comp, rowDigits, hds, Option.getD_some]
+    rw [omap_length _ _ _ hds, length_stripSign]
+  rw [power_array _ (by
+    intro l hl
+    simp only [List.mem_map] at hl
+    obtain ⟨r, hr, rfl⟩ := hl
+    have := hne r hr
+    cases r with | nil => exact absurd rfl this | cons _ _ => simp)]
+  have hs := sums_rows drows
+  have hg : g = fun (x : Nat × Int) => (x.fst : Int) * 10 ^ x.snd.toNat := rfl
+  rw [hg] at hs
+  rw [hlen, hs, hdr, List.map_map, map_zip_self]
+  rfl
+
+theorem wrap64_id (v : Int) (h : int64 v) : wrap64 v = v := by
+  unfold int64 at h; unfold wrap64; omega
+
+theorem specNat_some (t : Bytes) (u : Nat) (h : specNat t = some u) :
+    t ≠ [] ∧ allDigits t = true ∧ u = ofDigits (t.map (· - 48)) := by
+  unfold specNat at h
+  split at h
+  · rename_i hc; simp at h; exact ⟨hc.1, hc.2, h.symm⟩
+  · simp at h
+
+theorem head_digit (t : Bytes) (hne : t ≠ []) (h : allDigits t = true) :
+    isNegRow t = false ∧ isPosRow t = false := by
+  cases t with
+  | nil => exact absurd rfl hne
+  | cons b r =>
+    unfold allDigits at h
+    simp only [List.all_cons, Bool.and_eq_true, decide_eq_true_eq] at h
+    simp only [isNegRow, isPosRow, List.head?_cons]
+    constructor
+    · apply Bool.eq_false_iff.mpr; intro hc; simp at hc; omega
+    · apply Bool.eq_false_iff.mpr; intro hc; simp at hc; omega
+
+theorem ofDigits_zero_cons (ds : List Nat) : ofDigits (0 :: ds) = ofDigits ds := by
+  simp [ofDigits]
+
+/-- a row in the grammar is accepted by the code and evaluated to the value of the text -/
+theorem row_parse (r : Bytes) (v : Int) (h : specParse r = some v) :
+    r ≠ [] ∧ (omap digitVal (stripSign r)).isSome ∧ rowValue r = wrap64 v := by
+  unfold specParse at h
+  split at h
+  · -- '-' :: t
+    rename_i t
+    cases hu : specNat t with
+    | none => simp [hu] at h
+    | some u =>
+      simp only [hu, Option.some.injEq] at h
+      subst h
+      obtain ⟨_, hall, rfl⟩ := specNat_some t u hu
+      have hs : stripSign (45 :: t) = 48 :: t := by simp [stripSign, isNegRow]
+      have hd : omap digitVal (48 :: t) = some (0 :: t.map (· - 48)) :=
+        omap_cons_some _ _ _ _ _ (by simp [digitVal]) (omap_digitVal t hall)
+      refine ⟨by simp, by rw [hs, hd]; rfl, ?_⟩
+      simp only [rowValue, rowDigits, hs, hd, Option.getD_some, rowSum_eq, ofDigits_zero_cons]
+      simp [isNegRow]
+  · rename_i t
+    cases hu : specNat t with
+    | none => simp [hu] at h
+    | some u =>
+      simp only [hu, Option.some.injEq] at h
+      subst h
+      obtain ⟨_, hall, rfl⟩ := specNat_some t u hu
+      have hs : stripSign (43 :: t) = 48 :: t := by simp [stripSign, isNegRow, isPosRow]
+      have hd : omap digitVal (48 :: t) = some (0 :: t.map (· - 48)) :=
+        omap_cons_some _ _ _ _ _ (by simp [digitVal]) (omap_digitVal t hall)
+      refine ⟨by simp, by rw [hs, hd]; rfl, ?_⟩
+      simp only [rowValue, rowDigits, hs, hd, Option.getD_some, rowSum_eq, ofDigits_zero_cons]
+      simp [isNegRow]
+  · cases hu : specNat r with
+    | none => simp [hu] at h
+    | some u =>
+      simp only [hu, Option.some.injEq] at h
+      subst h
+      obtain ⟨hne, hall, rfl⟩ := specNat_some r u hu
+      obtain ⟨hn, hp⟩ := head_digit r hne hall
+      have hs : stripSign r = r := by simp [stripSign, hn, hp]
+      have hd := omap_digitVal r hall
+      refine ⟨hne, by rw [hs, hd]; rfl, ?_⟩
+      simp only [rowValue, rowDigits, hs, hd, Option.getD_some, rowSum_eq, hn]
+      simp
+
+/-- **C18.parse_int**: every batch of decimal integer texts (optional sign, any number of leading
+zeros, any length) whose values fit int64 parses to exactly those values -/
+theorem parse_int (rows : List Bytes) (vs : List Int) (h : omap specParse rows = some vs)
+    (hr : ∀ v ∈ vs, int64 v) : strToInt rows = some vs := by
+  have hvs := omap_getD specParse rows vs 0 h
+  have hall : ∀ r ∈ rows, (specParse r).isSome := (omap_isSome_iff specParse rows).mp (by rw [h]; rfl)
+  rw [strToInt_rows rows
+    (fun r hr' => by
+      obtain ⟨v, hv⟩ := Option.isSome_iff_exists.mp (hall r hr'); exact (row_parse r v hv).1)
+    (fun r hr' => by
+      obtain ⟨v, hv⟩ := Option.isSome_iff_exists.mp (hall r hr'); exact (row_parse r v hv).2.1)]
+  rw [hvs]
+  congr 1
+  apply List.map_congr_left
+  intro r hr'
+  obtain ⟨v, hv⟩ := Option.isSome_iff_exists.mp (hall r hr')
+  rw [(row_parse r v hv).2.2, hv, Option.getD_some]
+  apply wrap64_id
+  apply hr
+  rw [hvs]
+  exact List.mem_map.mpr ⟨r, hr', by rw [hv]; rfl⟩
+
+example : omap specParse ["-0012".toList.map Char.toNat, "+7".toList.map Char.toNat,
+    "-9223372036854775808".toList.map Char.toNat, "0000000000000000000000042".toList.map Char.toNat]
+    = some [-12, 7, -9223372036854775808, 42] := by decide
+
+
+
+/-! ### parse_format -/
+
+theorem digitsBE_lt (m : Nat) : ∀ d ∈ digitsBE m, d < 10 := by
+  induction m using Nat.strongRecOn with
+  | _ m ih =>
+    rw [digitsBE]
+    by_cases h : m < 10
+    · simp [h]
+    · simp only [h, dite_false, List.mem_append, List.mem_singleton]
+      intro d hd
+      cases hd with
+      | inl hd => exact ih (m / 10) (by omega) d hd
+      | inr hd => omega
+
+theorem ofDigits_snoc (a : List Nat) (d : Nat) : ofDigits (a ++ [d]) = ofDigits a * 10 + d := by
+  simp [ofDigits, List.foldl_append]
+
+theorem ofDigits_digitsBE (m : Nat) : ofDigits (digitsBE m) = m := by
+  induction m using Nat.strongRecOn with
+  | _ m ih =>
+    rw [digitsBE]
+    by_cases h : m < 10
+    · simp [h, ofDigits]
+    · simp only [h, dite_false, ofDigits_snoc, ih (m / 10) (by omega)]
+      omega
+
+theorem specNat_digits (m : Nat) : specNat ((digitsBE m).map (· + 48)) = some m := by
+  have hb := digitsBE_bounds m
+  have hlt := digitsBE_lt m
+  unfold specNat
+  have h1 : (digitsBE m).map (· + 48) ≠ [] := by
+    intro hc
+    have := congrArg List.length hc
+    simp only [List.length_map, List.length_nil] at this
+    have := hb.2.2
+    omega
+  have h2 : allDigits ((digitsBE m).map (· + 48)) = true := by
+    unfold allDigits
+    simp only [List.all_map, List.all_eq_true, Function.comp, Bool.and_eq_true, decide_eq_true_eq]
+    intro d hd
+    have := hlt d hd
+    omega
+  simp only [h1, h2, ne_eq, not_false_eq_true, and_self, if_true, List.map_map, Option.some.injEq]
+  have : ((fun x => x - 48) ∘ fun x => x + 48) = (id : Nat → Nat) := by funext x; simp
+  rw [this, List.map_id, ofDigits_digitsBE]
+
+theorem specParse_unsigned (b : Nat) (t : Bytes) (h1 : b ≠ 45) (h2 : b ≠ 43) :
+    specParse (b :: t) = match specNat (b :: t) with
+      | some v => some (v : Int)
+      | none => none := by
+  unfold specParse
+  split
+  · rename_i heq; exact absurd (List.cons.inj heq).1 h1
+  · rename_i heq; exact absurd (List.cons.inj heq).1 h2
+  · rfl
+
+theorem specParse_decimal (n : Int) : specParse (decimal n) = some n := by
+  by_cases hn : n < 0
+  · rw [decimal_neg n hn]
+    unfold specParse
+    simp only [specNat_digits]
+    congr 1; omega
+  · rw [decimal_nonneg n (by omega)]
+    have hb := digitsBE_bounds n.natAbs
+    have hlt := digitsBE_lt n.natAbs
+    cases hds : digitsBE n.natAbs with
+    | nil => rw [hds] at hb; simp at hb
+    | cons d r =>
+      have hd : d < 10 := hlt d (by rw [hds]; simp)
+      have hsn := specNat_digits n.natAbs
+      rw [hds] at hsn
+      simp only [List.map_cons] at hsn ⊢
+      rw [specParse_unsigned _ _ (by omega) (by omega), hsn]
+      simp only [Option.some.injEq]
+      omega
+
+theorem omap_map_some {α β} (f : β → Option α) (g : α → β) (l : List α) (h : ∀ a ∈ l, f (g a) = some a) :
+    omap f (l.map g) = some l := by
+  induction l with
+  | nil => rfl
+  | cons x xs ih =>
+    simp only [List.map_cons]
+    exact omap_cons_some _ _ _ _ _ (h x (by simp)) (ih (fun a ha => h a (by simp [ha])))
+
+/-- **C18.parse_format**: formatting then parsing returns the numbers, for every batch of int64 -/
+theorem parse_format (ns : List Int) (h : ∀ n ∈ ns, int64 n) : strToInt (intsToStrings ns) = some ns := by
+  rw [format_int ns h]
+  exact parse_int _ ns (omap_map_some _ _ _ (fun n _ => specParse_decimal n)) h
+
+/-- the canonical text parses back to the number (specification-level round trip) -/
+theorem spec_roundtrip (n : Int) : specParse (decimal n) = some n := specParse_decimal n
+
+/-! ### batch independence -/
+
+theorem intsToStrings_single (n : Int) : intsToStrings [n] = [fmtOne n] := by
+  rw [intsToStrings_rows]; rfl
+
+/-- **C18.batch_independent**: the result for a row never depends on the other rows of the batch:
+a batch is the concatenation of the one-row results (formatting: every batch; parsing: every batch
+whose rows are all accepted) -/
+theorem batch_independent (ns : List Int) (rows : List Bytes) (hne : ∀ r ∈ rows, r ≠ [])
+    (hok : ∀ r ∈ rows, (omap digitVal (stripSign r)).isSome) :
+    intsToStrings ns = (ns.map (fun n => intsToStrings [n])).flatten ∧
+    strToInt rows = omap (fun r => (strToInt [r]).bind List.head?) rows := by
+  constructor
+  · rw [intsToStrings_rows]
+    induction ns with
+    | nil => rfl
+    | cons n r ih => simp [intsToStrings_single, ih]
+  · rw [strToInt_rows rows hne hok]
+    symm
+    apply omap_some_map
+    intro r hr
+    rw [strToInt_rows [r] (by simpa using hne r hr) (by simpa using hok r hr)]
+    rfl
+
+example : ∀ r ∈ ["-12".toList.map Char.toNat, "007".toList.map Char.toNat],
+    r ≠ [] ∧ (omap digitVal (stripSign r)).isSome := by decide
+
+/-! ### int_lists -/
+
+theorem unflatten_map_flatten {α β} (rows : List (List α)) (f : α → β) :
+    unflatten (rows.map List.length) (rows.flatten.map f) = rows.map (·.map f) := by
+  have h1 : rows.flatten.map f = (rows.map (·.map f)).flatten := by simp [List.map_flatten]
+  have h2 : rows.map List.length = (rows.map (·.map f)).map List.length := by
+    simp [List.map_map, Function.comp_def]
+  rw [h1, h2]
+  exact unflatten_flatten _
+
+theorem length_joined (strs : List Bytes) (sep : Nat) :
+    ((strs.map (· ++ [sep])).flatten).length = (strs.map List.length).sum + strs.length := by
+  induction strs with
+  | nil => rfl
+  | cons s r ih => simp [ih]; omega
+
+theorem dropLast_joined (strs : List Bytes) (sep : Nat) :
+    ((strs.map (· ++ [sep])).flatten).dropLast = List.intercalate [sep] strs := by
+  induction strs with
+  | nil => rfl
+  | cons s r ih =>
+    cases r with
+    | nil => simp [List.intercalate]
+    | cons s2 r' =>
+      have hne : ((s2 :: r').map (· ++ [sep])).flatten ≠ [] := by simp
+      simp only [List.map_cons, List.flatten_cons] at ih hne ⊢
+      rw [List.dropLast_append_of_ne_nil hne, ih]
+      simp [List.intercalate]
+
+/-- **C18.int_lists**: rows of integers are joined element by element, for every ragged list of
+int64 values (empty rows included) -/
+theorem int_lists (rows : List (List Int)) (sep : Nat) (keepLast : Bool)
+    (h : ∀ r ∈ rows, ∀ n ∈ r, int64 n) :
+    intListsToStrings rows sep keepLast = specJoin rows sep keepLast := by
+  unfold intListsToStrings specJoin
+  have hf : intsToStrings rows.flatten = rows.flatten.map decimal :=
+    format_int _ (by
+      intro n hn
+      obtain ⟨r, hr, hnr⟩ := List.mem_flatten.mp hn
+      exact h r hr n hnr)
+  simp only [hf, List.map_map]
+  rw [unflatten_map_flatten rows (List.length ∘ decimal), map_zip_self]
+  have hj : joinKeepLast (rows.flatten.map decimal) sep
+      = (rows.map (fun r => ((r.map decimal).map (· ++ [sep])).flatten)).flatten := by
+    unfold joinKeepLast
+    simp [List.map_flatten, List.flatten_flatten, List.map_map, Function.comp_def]
+  rw [hj]
+  have hl : rows.map (fun a => (a.map (List.length ∘ decimal)).sum + a.length)
+      = (rows.map (fun r => ((r.map decimal).map (· ++ [sep])).flatten)).map List.length := by
+    rw [List.map_map]
+    apply List.map_congr_left
+    intro r _
+    simp only [Function.comp]
+    rw [length_joined]
+    simp [List.map_map, Function.comp_def]
+  rw [hl, unflatten_flatten]
+  cases keepLast with
+  | true => simp
+  | false =>
+    simp only [Bool.false_eq_true, if_false, List.map_map]
+    apply List.map_congr_left
+    intro r _
+    have := dropLast_joined (r.map decimal) sep
+    rw [List.map_map] at this
+    exact this
+
+
+
+/-! ### split / join -/
+
+theorem splitAux_no_sep (sep : Nat) (cur s : Bytes) (h : sep ∉ s) :
+    splitAux sep cur s = [cur.reverse ++ s] := by
+  induction s generalizing cur with
+  | nil => simp [splitAux]
+  | cons b bs ih =>
+    have hb : b ≠ sep := fun hc => h (by simp [hc])
+    simp only [splitAux, hb, if_false]
+    rw [ih (b :: cur) (fun hc => h (by simp [hc]))]
+    simp
+
+theorem splitAux_sep (sep : Nat) (cur s rest : Bytes) (h : sep ∉ s) :
+    splitAux sep cur (s ++ sep :: rest) = (cur.reverse ++ s) :: splitAux sep [] rest := by
+  induction s generalizing cur with
+  | nil => simp [splitAux]
+  | cons b bs ih =>
+    have hb : b ≠ sep := fun hc => h (by simp [hc])
+    simp only [List.cons_append, splitAux, hb, if_false]
+    rw [ih (b :: cur) (fun hc => h (by simp [hc]))]
+    simp
+
+/-- splitting a joined line returns the pieces (pieces free of the separator, at least one piece) -/
+theorem split_join (strs : List Bytes) (sep : Nat) (hne : strs ≠ []) (h : ∀ s ∈ strs, sep ∉ s) :
+    split (List.intercalate [sep] strs) sep = strs := by
+  unfold split
+  induction strs with
+  | nil => exact absurd rfl hne
+  | cons s r ih =>
+    cases r with
+    | nil => simp [List.intercalate, splitAux_no_sep sep [] s (h s (by simp))]
+    | cons s2 r' =>
+      have : List.intercalate [sep] (s :: s2 :: r') = s ++ sep :: List.intercalate [sep] (s2 :: r') := by
+        simp [List.intercalate]
+      rw [this, splitAux_sep sep [] s _ (h s (by simp))]
+      rw [ih (by simp) (fun t ht => h t (by simp [ht]))]
+      simp
+
+theorem decimal_bytes (n : Int) : ∀ b ∈ decimal n, b = 45 ∨ (48 ≤ b ∧ b ≤ 57) := by
+  intro b hb
+  have hlt := digitsBE_lt n.natAbs
+  by_cases hn : n < 0
+  · rw [decimal_neg n hn] at hb
+    simp only [List.mem_cons, List.mem_map] at hb
+    rcases hb with hb | ⟨d, hd, rfl⟩
+    · left; exact hb
+    · right; have := hlt d hd; omega
+  · rw [decimal_nonneg n (by omega)] at hb
+    simp only [List.mem_map] at hb
+    obtain ⟨d, hd, rfl⟩ := hb
+    right; have := hlt d hd; omega
+
+/-- **C18.int_lists_roundtrip**: a joined `List[int]` field splits and parses back to the same
+integers (`','` separator, every non-empty list of int64 values) -/
+theorem int_lists_roundtrip (r : List Int) (hne : r ≠ []) (h : ∀ n ∈ r, int64 n) :
+    splitParse (List.intercalate [44] (r.map decimal)) 44 = some r := by
+  unfold splitParse
+  rw [split_join _ 44 (by simpa using hne) (by
+    intro s hs
+    simp only [List.mem_map] at hs
+    obtain ⟨n, _, rfl⟩ := hs
+    intro hc
+    have := decimal_bytes n 44 hc
+    omega)]
+  exact parse_int _ r (omap_map_some _ _ _ (fun n _ => specParse_decimal n)) h
+
+example : splitParse ("1,-22,333".toList.map Char.toNat) 44 = some [1, -22, 333] := by decide
+
+
 /-! ### the rule shipped before the repair is refuted (concrete witnesses, replayed on the code) -/
 
 /-- `ints_to_strings([-2^63])` gave `'-2'`: `np.abs` wraps, `max(·,1) = 1`, `log10(1.0) = 0` exactly -/
